@@ -1,6 +1,7 @@
 import PdfModel.Lemmas.Indirect
 import PdfModel.Lemmas.Sequence
 import PdfModel.Lemmas.Render
+import PdfModel.Lemmas.ParserCursor
 
 /-!
   C03 — every spec-conformant spelling of an object parses to the value it denotes.
@@ -252,6 +253,26 @@ theorem parse_render_sequence_partial (env : Env R) (hd : env.decrypt = none) (f
   have := parse_sequence_partial env hd items hsz [] rest pre.length fuel hok Gap.nil hs (by simpa using hah) hfuel
   rw [hl]; simpa using this
 
+/-- **The cursor is restored after a failed parse** (`Lexer.pos`, anchor of the property): for every buffer, every
+    start position inside it, every context, flag set, depth budget and fuel, if `parse_with_lexer_ctx` returns
+    `Err` then the lexer stands where the call started.  `parseCtxC` (`Model/ParserCursor`) is the parser with the
+    cursor tracked on every path — also the failing ones, where the inner functions leave it wherever the error
+    struck; `cursor_model_refines` ties it to the model all other theorems are about. -/
+theorem parse_err_restores_pos (env : Env R) (buf : Buf) (fuel pos : Nat) (ctx : Option (Nat × Nat)) (flags depth : Nat)
+    (h : pos ≤ buf.size) (herr : (parseCtxC env buf fuel pos ctx flags depth).1 = .err) :
+    (parseCtxC env buf fuel pos ctx flags depth).2 = pos :=
+  parseCtxC_err env buf fuel pos ctx flags depth h herr
+
+/-- the cursor-tracking parser returns exactly what the parser model returns, for all inputs; and after `Ok` its
+    cursor is the returned position (so "the cursor rests right after the text" in the theorems above is a
+    statement about `Lexer.pos`) -/
+theorem cursor_model_refines (env : Env R) (buf : Buf) (fuel pos : Nat) (ctx : Option (Nat × Nat)) (flags depth : Nat)
+    (h : pos ≤ buf.size) :
+    (parseCtxC env buf fuel pos ctx flags depth).1 = parseCtx env buf fuel pos ctx flags depth ∧
+    ∀ v p, parseCtx env buf fuel pos ctx flags depth = .ok (v, p) →
+      (parseCtxC env buf fuel pos ctx flags depth).2 = p ∧ p ≤ buf.size :=
+  ⟨parseCtxC_fst env buf fuel pos ctx flags depth h, fun v p hok => parseCtxC_ok env buf fuel pos ctx flags depth h v p hok⟩
+
 /-- The full-strength statement: as `parse_spelling_partial` but for *all* names the syntax can spell
     (`/#ff` is a legal name), i.e. without `namesUtf8`. -/
 def C03_full : Prop :=
@@ -267,6 +288,13 @@ def unitEnv : Env Unit :=
 def isErr {α : Type} : Out α → Bool
   | .err => true
   | _ => false
+
+/-- non-vacuity of `parse_err_restores_pos`: `[1 2 (a` fails after the lexer has advanced to the end of the buffer, and
+    the cursor is back at the start (position 2, behind a prefix) -/
+example : (match parseCtxC unitEnv (#[120, 120, 91, 49, 32, 50, 32, 40, 97] : Buf) 40 2 none Flags.any maxDepth with
+    | (.err, 2) => true
+    | _ => false) = true := by
+  decide +kernel
 
 /-- **Counter-example (known finding, DESIGN D7)**: `/#ff` spells the name whose only byte is 0xFF; the
     reader rejects it because `Name` is a `SmallString` (UTF-8). -/
